@@ -15,6 +15,7 @@ import TracingModel.Core.Reload
 import TracingModel.Props.C07
 import TracingModel.Props.C04
 import TracingModel.Lemmas.StackHint
+import TracingModel.Props.C12E
 
 namespace C12
 open TM.Reload TM.Filtering TM.FilterExpr TM.Directive TM.FilteringLemmas
